@@ -190,6 +190,27 @@ var c13Templates = []sim.Template{
 		}
 		return sc
 	}},
+	{Name: "account-switch-around-email-verify", F: func(s *sim.Sim) []*sim.Action {
+		if !s.Cfg.TwoFAEmail || !s.Cfg.Has("auth") {
+			return nil
+		}
+		free := func(u *world.User) bool { return u.TOTPSecretKey == "" && u.SMSPhone == "" && u.Confirmed }
+		v := findAcct(s, free)
+		x := findAcct(s, free, v)
+		if v < 0 || x < 0 {
+			return nil
+		}
+		k := s.Cfg.TwoFA[s.R.Intn(len(s.Cfg.TwoFA))]
+		// victim's session requests the mail, the SAME session logs in as somebody else (no logout),
+		// presents nothing / garbage / the token there, and comes back
+		mid := act("ev_end", 0, -9, pickS(s.R, "empty", "absent", "garbage", "current"), "kind", k)
+		sc := []*sim.Action{act("login", 0, v, "ok"), act("ev_start", 0, -9, "", "kind", k), act("login", 0, x, "ok"), mid}
+		if s.R.Intn(2) == 0 {
+			sc = append(sc, act(k+"_setup", 0, -9, "own"))
+		}
+		sc = append(sc, act("login", 0, v, "ok"), act("get", 0, -9, "", "route", "/2fa/"+k+"/setup"), act(k+"_setup", 0, -9, "own"))
+		return sc
+	}},
 	{Name: "enrol-code-on-remove-page", F: func(s *sim.Sim) []*sim.Action {
 		if !s.Cfg.Has2FA("sms") || s.Cfg.TwoFAEmail || !s.Cfg.Has("auth") {
 			return nil
